@@ -574,3 +574,15 @@ Definition guard_delete_exhausted (t : trie) (k : list byte) : bool :=
   end.
 Definition guard_delete_exhausted_pinned (t : trie) (k : list byte) : bool :=
   match t with None => false | Some n => delete_exhausted n (key_le_to_nibbles k) end.
+
+(* ====================================================================================
+   Guard of the known-finding class prefix-trim (C02, C38).
+   ==================================================================================== *)
+(* what the Go code matches a byte prefix with: the nibble prefix minus one trailing zero nibble *)
+Definition go_prefix (p k : list byte) : bool :=
+  is_prefix (trim_zero_suffix (key_le_to_nibbles p)) (key_le_to_nibbles k).
+
+(* finding prefix-trim: some stored key matches the trimmed nibble prefix but not the byte prefix *)
+Definition guard_trim (m : list (list byte * value)) (p : list byte) : bool :=
+  existsb (fun e => go_prefix p (fst e) && negb (bytes_prefix p (fst e))) m.
+
